@@ -14,9 +14,17 @@ case "$ID" in C09) RACE="-race";; esac
 if [ "${VERIF_RACE:-0}" = 1 ]; then RACE="-race"; fi
 trap 'rm -f "$BIN"' EXIT
 LOG="/verif/bin/build-$ID-$$.log"
-if ! go build $RACE -tags verif -o "$BIN" ./cmd/vcheck >"$LOG" 2>&1; then
+# the table of package-level constructors is regenerated from /repo/jen, so that it matches the tree under test
+APITAG=""
+if go run ./cmd/apigen -o "cmd/vcheck/api_gen.go.$$" >"$LOG" 2>&1 && mv -f "cmd/vcheck/api_gen.go.$$" cmd/vcheck/api_gen.go; then
+  APITAG="apigen"
+else
+  rm -f "cmd/vcheck/api_gen.go.$$"
+  echo "note: API table could not be generated from /repo/jen; using the committed fallback table"
+fi
+if ! go build $RACE -tags "verif $APITAG" -o "$BIN" ./cmd/vcheck >"$LOG" 2>&1; then
   # the hook file may not follow an internal refactor: fall back to boundary-only monitoring
-  if ! go build $RACE -o "$BIN" ./cmd/vcheck >>"$LOG" 2>&1; then
+  if ! go build $RACE -tags "$APITAG" -o "$BIN" ./cmd/vcheck >>"$LOG" 2>&1 && ! go build $RACE -o "$BIN" ./cmd/vcheck >>"$LOG" 2>&1; then
     cat "$LOG"; rm -f "$LOG"
     echo "INCONCLUSIVE property=$ID reason=harness-or-repo-does-not-build"
     exit 2
